@@ -34,6 +34,8 @@ type Semaphore struct {
 	sem          *semaphore.Weighted
 	lock         sync.Mutex
 	realCapacity int64
+	// lastDone is closed when the latest capacity adjustment has been applied.
+	lastDone chan struct{}
 }
 
 // NewSem new a Semaphore
@@ -80,9 +82,17 @@ func (s *Semaphore) SetMaxCount(n int64) (done chan struct{}) {
 	s.lock.Lock()
 	old := s.realCapacity
 	s.realCapacity = n
+	prev := s.lastDone
+	s.lastDone = done
 	s.lock.Unlock()
 
 	go func() {
+		// Apply the adjustments in the order they were requested: releasing
+		// for a grow while an earlier shrink is still waiting for its permits
+		// would hand out more than either capacity allows.
+		if prev != nil {
+			<-prev
+		}
 		if n > old {
 			s.sem.Release(n - old)
 		} else if n < old {
